@@ -20,7 +20,7 @@ SLICE = 12
 KINDS = ["ins-quote", "del-quote", "backslash-alnum", "open-bracket-comment-0", "open-bracket-comment-1",
          "extra-lparen", "extra-rparen", "del-paren", "bare-word", "stray-quoted", "stray-bracket"]
 PARSE_TIME = {"unterminated-string", "unterminated-bracket", "unterminated-bracket-comment", "paren-imbalance", "stray-text",
-              "text-after-command-on-same-line"}
+              "text-after-command-on-same-line", "identifier-separated-from-paren"}
 
 
 def base_module(seed, tier, j):
@@ -75,7 +75,7 @@ class Prop(BaseProp):
     HEADLINE = ["mutants_generated", "mutants_invalid_asserted", "mutants_valid_skipped", "rejected_as_required",
                 "cmake_crosschecks", "cli_runs", "directory_mode_runs", "stdout_mode_runs", "runs_via_cminx_main", "rerun_mode_runs"]
 
-    NMOD = {"quick": 4, "thorough": 40}
+    NMOD = {"quick": 4, "thorough": 16}
 
     def plan(self, tier):
         plan = []
@@ -90,7 +90,7 @@ class Prop(BaseProp):
     def n_cases(self, tier):
         self.tier = tier
         self._plan = self.plan(tier)
-        return len(self._plan) + (0 if tier == "quick" else 400)
+        return len(self._plan) + (0 if tier == "quick" else 300)
 
     def setup_worker(self):
         runner.cminx()
@@ -239,9 +239,10 @@ class Prop(BaseProp):
                                                            "unterminated-bracket-comment"):
                     res.count("mutants_legacy_skipped")
                     continue
-                reasons = [x for x, _ in mref.all_invalid if x != "text-after-command-on-same-line"]
+                LAYOUT_ONLY = ("text-after-command-on-same-line", "identifier-separated-from-paren")
+                reasons = [x for x, _ in mref.all_invalid if x not in LAYOUT_ONLY]
                 reason = reasons[0] if reasons else mref.invalid[0]
-                if reason == "text-after-command-on-same-line":
+                if reason in LAYOUT_ONLY:
                     # invalid for CMake (a newline must follow every command) but not one of the fault classes C06 lists;
                     # typically produced by a pair of parenthesis faults splitting one command into two on one line
                     res.count("mutants_outside_listed_fault_classes_skipped")
